@@ -127,7 +127,8 @@ def layout(toks, how, rnd=None):
     if how == "newline":
         return "\n".join(toks)
     if how == "comments":
-        seps = [" /*c*/ ", " //c\n", " /* a\n b */", "\t", " \r\n "]
+        seps = [" /*c*/ ", " //c\n", " /* a\n b */", "\t", " \r\n ", " /***/ ", " /* c **/ ", " /**/ ", " /* a * b / c */ ", " //* c\n", " /*/*/ ",
+                " /** doc **/ ", " /* 2**3 */ "]
         out = []
         for i, t in enumerate(toks):
             out.append(t)
